@@ -4,7 +4,7 @@ id=$1; n=$2; sfx=$3
 for k in 1 2; do
   src=/tmp/wt/${id}${sfx}/SEED/$k
   [ -f $src/patch.diff ] || { echo "no seed $k for $id"; continue; }
-  idx=$((n+k)); d=/verif/seeded/$id-$idx; mkdir -p $d
+  idx=$((n+k)); d=/verif/seeded/$id-$idx; mkdir -p $d || { echo "cannot create $d, worktree kept"; exit 1; }
   cp $src/patch.diff $src/meta.json $d/ 2>/dev/null
   cp -r $src/demo $d/ 2>/dev/null
   find $d -name "*.log" -size +100k -delete
